@@ -356,3 +356,37 @@ def _CLS2(name, val, req=lambda c: []):
     return register(cls)
 _CLS2('add', lambda x, y, j: x[j] + y[j]); _CLS2('sub', lambda x, y, j: x[j] - y[j]); _CLS2('mul', lambda x, y, j: S.CONV(x, y, j)); _CLS2('multiply', lambda x, y, j: S.CONV(x, y, j))
 _CLS2('div', lambda x, y, j: S.QUOT(x, y, j), lambda c: [c.pre['y.data'][0] != 0])
+
+
+# ------------------------------------------------------------------------------------------------ piecewise functions as methods
+W('sign', lambda x, j: z3.If(j == 0, sgn(x[0]), z3.RealVal(0)), None, lambda x: [x[0] != 0])
+
+@register
+class BotchedClipW(Contract):
+    """UTPM.botched_clip(a_min, a_max, x): the kernel's precondition `out holds a copy of x` is established here by x.clone()"""
+    file = 'algopy/utpm/utpm.py'; qual = 'UTPM.botched_clip'; objs = ('x',); arrays = ('x.data',); scalars = {'a_min': 'real', 'a_max': 'real'}; modifies = (); returns = 'any'
+    cfgs = {'distinct': {}}; property_ids = ('C01', 'C14', 'C12')
+    def requires(self, c):
+        x = c.pre['x.data']; lo, hi = toR(scalar_of(c, 'a_min').t), toR(scalar_of(c, 'a_max').t)
+        return [x[0] != lo, x[0] != hi, lo <= hi]
+    def fvalue(self, c, j):
+        x = c.pre['x.data']; lo, hi = toR(scalar_of(c, 'a_min').t), toR(scalar_of(c, 'a_max').t)
+        return z3.If(j == 0, z3.If(x[0] < lo, lo, z3.If(x[0] > hi, hi, x[0])), z3.If(z3.And(lo < x[0], x[0] < hi), x[j], z3.RealVal(0)))
+    def ensures(self, c):
+        r = c.retdata(); fresh = c.ret.attrs['data'].base != c._names['x.data']
+        return [('result = clip branch applied coefficient-wise', c.forall(0, c.D, lambda j: r[j] == self.fvalue(c, j))), ('result is a new object', z3.BoolVal(bool(fresh)))]
+
+class MinMaxW(Contract):
+    file = 'algopy/utpm/utpm.py'; objs = ('x', 'y'); arrays = ('x.data', 'y.data'); modifies = (); returns = 'any'
+    cfgs = {'distinct': {}}; property_ids = ('C01', 'C14', 'C12'); less = True
+    def requires(self, c): return [c.pre['x.data'][0] != c.pre['y.data'][0]]
+    def fvalue(self, c, j):
+        x, y = c.pre['x.data'], c.pre['y.data']; cond = (x[0] <= y[0]) if self.less else (x[0] >= y[0])
+        return z3.If(cond, x[j], y[j])
+    def ensures(self, c):
+        r = c.retdata(); fresh = c.ret.attrs['data'].base not in (c._names['x.data'], c._names['y.data'])
+        return [('result[d] = the operand selected by the zeroth coefficients', c.forall(0, c.D, lambda j: r[j] == self.fvalue(c, j))), ('result is a new object', z3.BoolVal(bool(fresh)))]
+@register
+class MinimumW(MinMaxW): qual = 'UTPM.minimum'; less = True
+@register
+class MaximumW(MinMaxW): qual = 'UTPM.maximum'; less = False
